@@ -424,6 +424,47 @@ def _expand_combinators(mir, j, name, rec, skip):
                             'term': {'k': 'goto', 'target': t['target']}})
 
 
+def inline_front_end(mir, extra=()):
+    """The generating entry may delegate its front-end steps (parse, validate, collect the bind group data) to small sibling helpers
+    (`parse_module`, `check_module`, `validate_module`, ..).  Find the function that joins the front end with the emission functions - the one
+    function that reaches the WGSL parser and also calls crate functions that do not - and replace its body (in this Mir instance) by the
+    version in which those front-end helpers are inlined, so that the path rules see parse -> validate -> group data -> emission in one CFG.
+    Returns (name of that function or None, set of inlined helper names)."""
+    def calls_of(n):
+        return [c['callee'] or c['raw'] for _, c in mir.bodies[n].calls()]
+    parse = {n for n in mir.bodies if 'naga::front::wgsl::parse_str' in calls_of(n)}
+    valid = {n for n in mir.bodies if 'naga::valid::Validator::validate' in calls_of(n)}
+    if not parse:
+        return None, set()
+    front = mir.callers_closure(parse)
+    cg = mir.call_graph()
+    # helpers below the joining function: reach the parser / validator, or are called only from front-end functions and return a Result
+    cands = []
+    for n in sorted(front):
+        b = mir.bodies[n]
+        if b.kind == 'Closure':
+            continue
+        others = {c for c in cg.get(n, ()) if c not in front and mir.bodies[c].kind != 'Closure'}
+        if len(others) >= 3:
+            cands.append((len(mir.reachable_fns([n])), n))
+    if not cands:
+        return None, set()
+    top = sorted(cands)[0][1]          # the innermost function that joins front end and emission
+    helpers = set()
+    for c in cg.get(top, ()):
+        if mir.bodies[c].kind == 'Closure':
+            continue
+        reach = mir.reachable_fns([c])
+        tg = parse | valid | set(extra)
+        if c not in set(extra) and (reach & tg) and len(mir.bodies[c].blocks) <= 80:
+            helpers |= {h for h in reach if h not in set(extra) and (mir.reachable_fns([h]) & tg) and mir.bodies[h].kind != 'Closure' and len(mir.bodies[h].blocks) <= 80}
+    helpers.discard(top)
+    if helpers:
+        mir.bodies[top] = inlined(mir, top, depth=4, skip=[n for n in mir.bodies if n not in helpers])
+        mir._cg = None
+    return top, helpers
+
+
 def inlined(mir, name, depth=2, max_blocks=400, skip=()):
     """a Body for `name` in which the direct calls of non-recursive, non-closure crate functions are replaced by the callee's CFG
     (arguments assigned to the callee's parameter locals, returns assigned to the call's destination)"""
